@@ -125,6 +125,10 @@ type Found struct {
 	Index uint64
 	V     *Violation
 	Sc    *Scenario
+	// position in the child's run order: the worlds this process executed before this one are
+	// N-Stride, N-2*Stride, ... (needed when a failure turns out to depend on them)
+	N      uint64
+	Stride int
 }
 
 type RunResult struct {
@@ -177,7 +181,7 @@ func Run(cfg RunCfg) *RunResult {
 					}
 					continue
 				}
-				res.Found = &Found{Seed: seed, Index: idx, V: v, Sc: sc}
+				res.Found = &Found{Seed: seed, Index: idx, V: v, Sc: sc, N: n, Stride: cfg.Stride}
 				if cfg.StopFile != "" {
 					ioutil.WriteFile(cfg.StopFile, []byte("stop"), 0644)
 				}
